@@ -83,6 +83,17 @@ def check_copy_half(ck, max_turns=2):
         evs = [e[0] for e in o.trace]
         if 'shutdown' in evs:
             ex.prove(o, 'C04/relay/no-write-after-shutdown', 'write' not in evs[evs.index('shutdown'):])
+        # idleness (C13): a direction that is carrying data shows it -- whenever the loop goes back to wait for the source after a
+        # chunk was relayed, this direction's activity stamp has been written since that chunk was read (however the stamp is kept:
+        # any atomic write into the statistics object other than the byte / frame counters counts)
+        counters = [m['stf'].index(n_) for n_ in ('read_bytes', 'read_frames') if n_ in m['stf']]
+        reads = [k for k, e in enumerate(o.trace) if e[0] in ('read', 'eof') and len(e) > 1 and e[1] == 'source']
+        for a_, b_ in zip(reads, reads[1:]):
+            if o.trace[a_][0] != 'read':
+                continue
+            stamped = [e for e in o.trace[a_:b_] if e[0] in ('atomic.store', 'atomic.rmw') and e[-2] == m['stat_cell']
+                       and e[-1] and e[-1][0][1] not in counters]
+            ex.prove(o, 'C13/relay/a-relayed-chunk-refreshes-the-activity-stamp-before-the-next-wait-for-the-source', bool(stamped))
     if not reached:
         ck.add('C01/relay/reachability', 'vacuous', 'no path through copy_half returned')
     for f in ex.findings:
@@ -104,6 +115,10 @@ def relay_replay_plan(ob):
         cases = [{'driver': 'copy_half', 'args': {'source': '68656c6c6f776f726c6421', 'pieces': [5, 6], 'buffer_size': 16, 'counted_before': 0, 'dst_closes_after': 5}},
                  {'driver': 'copy_half', 'args': {'source': '6162636465', 'pieces': [1, 4], 'buffer_size': 8, 'counted_before': 0, 'dst_closes_after': 1}}]
         return 'relay', cases, lambda o: o.get('counted') is not None and o.get('counted') > len(o.get('delivered', '')) // 2
+    if (ob.target or '') == 'copy_half' and ob.label.startswith('C13/relay/'):
+        # a fast source, a destination that takes the data slowly: every read fills the relay buffer; the stamp is sampled on the side
+        cases = [{'driver': 'saturated_transfer', 'args': {'buffer_size': b, 'seconds': 2}} for b in (64, 1024)]
+        return 'relay', cases, lambda o: o.get('bytes_relayed', 0) > 0 and o.get('stamp_went_stale') is True
     if (ob.target or '') == 'copy_bidi (completion)' and 'ended-with-an-error' in ob.label:
         # one peer resets its TCP connection (SO_LINGER 0): at once, or after the other direction has ended cleanly
         cases = [{'driver': 'bidi_reset', 'args': {'failing': w, 'after_clean_end_of_other': late}} for w in ('server', 'client') for late in (True, False)]
